@@ -7,7 +7,7 @@ use super::*;
 macro_rules! vcover {
     ($($t:tt)*) => { if option_env!("VERIF_NO_COVER").is_none() { kani::cover!($($t)*); } };
 }
-use crate::verif_common::{instr_round_trip, instr_size_field, terminal_is_recognised, Stored, SizeField};
+use crate::verif_common::{instr_time_is_stored, instr_round_trip, instr_size_field, terminal_is_recognised, Stored, SizeField};
 
 macro_rules! c03 {
     ($name:ident, $unwind:literal, $body:expr) => {
@@ -161,6 +161,11 @@ c03!(c03_anm_sprite_rt, 6, {
     assert!(back.size[0].to_bits() == sp.size[0].to_bits() && back.size[1].to_bits() == sp.size[1].to_bits(), "sprite size read back differs");
     core::mem::forget(emitter);
 });
+
+//@ C13 c13_anm06_time_stored quick default ANM v0 (EoSD): if write_instr accepts an instruction, the time read back from the written bytes is the requested time, for every i32 time (a time that does not fit the field must be rejected, never stored differently)
+c03!(c13_anm06_time_stored, 8, instr_time_is_stored::<4>(&InstrFormat06, Stored { param_mask: false, difficulty: false, extra_arg: false, pop_and_arg_count: false, maybe_terminal: true, ignore_param_mask: false }, |_| true));
+//@ C13 c13_anm07_time_stored quick default ANM v2+: if write_instr accepts an instruction, the time read back from the written bytes is the requested time, for every i32 time (a time that does not fit the field must be rejected, never stored differently)
+c03!(c13_anm07_time_stored, 8, instr_time_is_stored::<4>(&InstrFormat07, Stored { param_mask: true, difficulty: false, extra_arg: false, pop_and_arg_count: false, maybe_terminal: false, ignore_param_mask: false }, |_| true));
 
 #[cfg(kani)]
 #[path = "/verif/.cache/playback/anm_read_write.rs"]
